@@ -174,12 +174,22 @@ func tmTour(r *kit.Run, rng *rand.Rand, pal *Palette, name string, def uint64, b
 
 func sha256sum(b []byte) []byte { h := sha256.Sum256(b); return h[:] }
 
-// fakeProof is a well-framed but meaningless NEO state proof: var-bytes key, one var-bytes node.
-// (Unframed random bytes are avoided on purpose: the proof decoder allocates an attacker-chosen count.)
-func fakeProof(rng *rand.Rand, pal *Palette) []byte {
-	key := append(pal.Blob(rng, 20), pal.Blob(rng, 8)...)
-	if len(key) > 200 {
-		key = key[:200]
+// fakeProof is a well-framed but meaningless NEO state proof: var-bytes storage key, one var-bytes
+// node. neo2 storage key = 20-byte script hash + 16-byte groups each followed by a padding byte
+// (the last one non-zero); neo3 storage key = int32 contract id + key bytes. Unframed random bytes
+// are avoided on purpose: the library decoders loop / allocate without bound on them.
+func fakeProof(rng *rand.Rand, pal *Palette, neo3 bool) []byte {
+	fit := func(b []byte, n int) []byte {
+		out := make([]byte, n)
+		copy(out, b)
+		return out
+	}
+	var key []byte
+	if neo3 {
+		key = append([]byte{5, 0, 0, 0}, fit(pal.Blob(rng, 12), 12)...)
+	} else {
+		key = append(fit(pal.Blob(rng, 20), 20), fit(pal.Blob(rng, 8), 16)...)
+		key = append(key, 8) // 8 padding bytes in the only group
 	}
 	node := make([]byte, 40)
 	rng.Read(node)
@@ -275,7 +285,7 @@ func neoTour(r *kit.Run, rng *rand.Rand, pal *Palette) {
 		return neosynth.RawHeader(h)
 	}
 	chains.SyncHeaders(e, id, [][]byte{hdr(i0+1, A, B, 2)}) // below m
-	chains.SyncHeaders(e, id, [][]byte{hdr(i0+2, B, A, 3)}) // foreign committee
+	chains.SyncHeaders(e, id, [][]byte{hdr(i0+2, B, B, 3)}) // foreign committee
 	chains.SyncHeaders(e, id, [][]byte{hdr(i0+3, A, B, 3)}) // validator change
 	chains.SyncHeaders(e, id, [][]byte{hdr(i0+1, B, A, 3)}) // not higher
 	sroot := func(signer *neosynth.Set, k int) []byte {
@@ -287,7 +297,7 @@ func neoTour(r *kit.Run, rng *rand.Rand, pal *Palette) {
 		sr.Witness.VerificationScript = neohelper.BytesToHex(signer.Script)
 		return neosynth.RawStateRoot(sr)
 	}
-	junk := fakeProof(rng, pal)
+	junk := fakeProof(rng, pal, false)
 	chains.Import(e, id, i0+10, junk, nil, sroot(B, 3)) // verified state root, unusable proof
 	chains.Import(e, id, i0+10, junk, nil, sroot(A, 3)) // state root of the replaced committee
 	chains.SyncMsgs(e, id, [][]byte{sroot(B, 3)})
@@ -320,7 +330,7 @@ func neo3Tour(r *kit.Run, rng *rand.Rand, pal *Palette) {
 		return n3.RawHeader(h)
 	}
 	chains.SyncHeaders(e, id, [][]byte{hdr(i0+1, A, B, 2)})
-	chains.SyncHeaders(e, id, [][]byte{hdr(i0+2, B, A, 3)})
+	chains.SyncHeaders(e, id, [][]byte{hdr(i0+2, B, B, 3)}) // foreign committee
 	chains.SyncHeaders(e, id, [][]byte{hdr(i0+3, A, B, 3)})
 	chains.SyncHeaders(e, id, [][]byte{hdr(i0+1, B, A, 3)})
 	sroot := func(signer *n3.Set, k int) []byte {
@@ -331,7 +341,7 @@ func neo3Tour(r *kit.Run, rng *rand.Rand, pal *Palette) {
 		n3.SetStateRootWitness(sr, n3.Invocation(signer.Sigs(rng, n3.StateRootMessage(sr, magic), kinds, []int{0, 1, 2, 3})), signer.Script)
 		return n3.RawStateRoot(sr)
 	}
-	junk := fakeProof(rng, pal)
+	junk := fakeProof(rng, pal, true)
 	chains.Import(e, id, i0+10, junk, nil, sroot(SV, 3))
 	chains.Import(e, id, i0+10, junk, nil, sroot(A, 3))
 	r.Count("router_workload:"+name, 1)
@@ -360,14 +370,8 @@ func neo3LegacyTour(r *kit.Run, rng *rand.Rand, pal *Palette) {
 	chains.SyncHeaders(e, id, [][]byte{hdr(i0+1, A, B, 2)})
 	chains.SyncHeaders(e, id, [][]byte{hdr(i0+3, A, B, 3)})
 	chains.SyncHeaders(e, id, [][]byte{hdr(i0+1, B, A, 3)})
-	SV := n3l.FromKeys(n3l.NewKeys(rng, 4), 3)
-	if err := chains.RegisterStateValidators(e, SV.PubStrings()); err == nil {
-		var root [32]byte
-		rng.Read(root[:])
-		sr := n3l.StateRoot(i0+10, root)
-		n3l.SetStateRootWitness(sr, n3l.Invocation(SV.Sigs(rng, n3l.StateRootMessage(sr, magic), make([]n3l.SlotKind, 3), []int{0, 1, 2, 3})), SV.Script)
-		chains.Import(e, id, i0+10, fakeProof(rng, pal), nil, n3l.RawStateRoot(sr))
-	}
+	chains.SyncHeaders(e, id, [][]byte{hdr(i0+4, A, A, 3)}) // signed by the replaced committee
+	// (cross_chain_manager has no handler for the neo3legacy router: no import)
 	r.Count("router_workload:"+name, 1)
 }
 
